@@ -81,6 +81,10 @@ def run_check(prop: str, tier: str, verif_seed: int, runs: int | None, shrink_en
             from . import enum_c11
 
             extra = enum_c11.run(pools, tier, verif_seed, deadline, known)
+        if prop in ("C09", "C12"):
+            from . import enum_grid
+
+            extra = enum_grid.run(pools, prop, tier, verif_seed, deadline, known)
         if prop == "C03":
             from . import gen_sched
 
